@@ -153,7 +153,8 @@ class Job:
         self.extra_env = line.get("env") or {}
         self.deadline = line.get("deadline")
         self.procs = line.get("procs")
-        self.name = "%s.%s.%s.%d" % (self.wl, self.variant, config, shard)
+        self.fuzz_note = line.get("fuzz_note")
+        self.name = "%s.%s.%s.%d" % (self.wl, self.variant, config, shard) + (("." + line["tag"]) if line.get("tag") else "")
         self.journal = os.path.join(rundir, self.name + ".jsonl")
         self.cur = os.path.join(rundir, self.name + ".cur")
         self.stderr = os.path.join(rundir, self.name + ".stderr")
@@ -359,6 +360,19 @@ def check(prop, tier):
         for cfg in ln["configs"]:
             for s in range(shards):
                 jobs.append(Job(prop, ln, cfg, s, shards, tier, seed, rundir))
+    # coverage-guided fuzzing stage (driver/gofuzz.py): the engine proposes failing inputs, each becomes one more job
+    fuzz_events, fuzz_incon, fuzz_herr = {}, [], []
+    fz = plan.get("fuzz")
+    if fz and not (fz.get("thorough_only") and tier == "quick") and not COVER:
+        import gofuzz
+        modflag = ["-modfile=" + os.path.join(BIN, "go.mod")] if ALT else []
+        flines, fuzz_events, fuzz_incon, fuzz_herr = gofuzz.fuzz_stage(fz, prop, tier, HARNESS, BIN, rundir, keep, goenv(), modflag, log, NCPU)
+        for k, ln in enumerate(flines):
+            ln["tag"] = "fz%d" % k
+            if build(prop, ln["variant"]) is None:
+                fuzz_herr.append("child for the fuzz replay does not build")
+                continue
+            jobs.append(Job(prop, ln, ln["configs"][0], 0, 1, tier, seed, rundir))
     wall_limit = int(os.environ.get("VERIF_JOB_WALL", "1500" if tier == "quick" else "7200"))
     workers = int(os.environ.get("VERIF_JOBS", str(NCPU)))
     # jobs that pin GOMAXPROCS high should not all run at once
@@ -379,6 +393,9 @@ def check(prop, tier):
     digests = {}      # (wl, shardinfo, key) -> {value: [job names]}
     per_wl = {}
     trivial_total = [0]
+    events.update(fuzz_events)
+    incon += fuzz_incon
+    harness_errors += fuzz_herr
     for j in jobs:
         recs = read_journal(j.journal)
         hello = [r for r in recs if r.get("t") == "hello"]
@@ -406,6 +423,9 @@ def check(prop, tier):
                 incon.append("%s: case %s: %s" % (j.name, r.get("n"), r.get("msg")))
             elif t == "garbled":
                 harness_errors.append("%s: garbled journal line" % j.name)
+        if j.fuzz_note and not j.crashes and not j.hangs and not any(r.get("t") == "viol" for r in recs):
+            incon.append("%s: the input %s did not fail again when the child executed it under the monitors (%s)" % (
+                j.name, j.extra_env.get("VERIF_FUZZ_INPUT"), j.fuzz_note))
         for d in dones:
             evaluations += d.get("cases", 0)
             trivial_total[0] += d.get("trivial", 0)
